@@ -2,7 +2,7 @@
    can be validated against the compiled C functions on concrete inputs. *)
 From Coq Require Import ZArith List Bool String.
 Require Import Spec.Params Spec.Bytes Model.Base Gen.fe_mul_inner Gen.fe_sqr_inner.
-Require Import Gen.fe10x26_ntz Gen.fe10x26_cmov Gen.gej_add_ge32 Gen.gej_add_ge Gen.fe10x26_add Gen.fe10x26_negate Gen.fe10x26_mul_int Gen.fe10x26_half Gen.gej_double32 Gen.ge_set_gej_zinv Gen.ge_set_ge_zinv Gen.gej_rescale Gen.gej_double Gen.scalar_eq Gen.fe_impl_get_b32 Gen.scalar_set_b32 Gen.scalar_get_b32 Gen.scalar_is_zero Gen.scalar_cmov Gen.fe_impl_cmov Gen.fe_storage_cmov Gen.int_cmov Gen.scalar_check_overflow Gen.scalar_is_high Gen.scalar_cond_negate Gen.scalar_negate Gen.fe_impl_normalize Gen.fe_impl_normalize_weak Gen.fe_impl_normalizes_to_zero Gen.fe_impl_negate_unchecked Gen.fe_impl_add Gen.fe_impl_half Gen.fe_impl_is_odd Gen.scalar_mul_512 Gen.scalar_sqr_512 Gen.scalar_reduce_512 Gen.scalar8x32_mul_512 Gen.scalar8x32_sqr_512 Gen.scalar8x32_check_overflow Gen.scalar8x32_reduce_512 Gen.scalar8x32_mul Gen.scalar8x32_sqr Gen.scalar_mul_512b Gen.scalar_sqr_512b Gen.scalar_mul Gen.scalar_sqr Gen.scalar_add Gen.scalar_half Gen.fe_impl_set_b32_limit Gen.fe10x26_mul_inner Gen.fe10x26_sqr_inner.
+Require Import Gen.fe10x26_ntz Gen.fe10x26_cmov Gen.gej_add_ge32 Gen.gej_add_ge Gen.fe10x26_add Gen.fe10x26_negate Gen.fe10x26_mul_int Gen.fe10x26_half Gen.gej_double32 Gen.ge_set_gej_zinv32 Gen.ge_set_ge_zinv32 Gen.gej_rescale32 Gen.ge_set_gej_zinv Gen.ge_set_ge_zinv Gen.gej_rescale Gen.gej_double Gen.scalar_eq Gen.fe_impl_get_b32 Gen.scalar_set_b32 Gen.scalar_get_b32 Gen.scalar_is_zero Gen.scalar_cmov Gen.fe_impl_cmov Gen.fe_storage_cmov Gen.int_cmov Gen.scalar_check_overflow Gen.scalar_is_high Gen.scalar_cond_negate Gen.scalar_negate Gen.fe_impl_normalize Gen.fe_impl_normalize_weak Gen.fe_impl_normalizes_to_zero Gen.fe_impl_negate_unchecked Gen.fe_impl_add Gen.fe_impl_half Gen.fe_impl_is_odd Gen.scalar_mul_512 Gen.scalar_sqr_512 Gen.scalar_reduce_512 Gen.scalar8x32_mul_512 Gen.scalar8x32_sqr_512 Gen.scalar8x32_check_overflow Gen.scalar8x32_reduce_512 Gen.scalar8x32_mul Gen.scalar8x32_sqr Gen.scalar_mul_512b Gen.scalar_sqr_512b Gen.scalar_mul Gen.scalar_sqr Gen.scalar_add Gen.scalar_half Gen.fe_impl_set_b32_limit Gen.fe10x26_mul_inner Gen.fe10x26_sqr_inner.
 Import ListNotations.
 Local Open Scope Z_scope.
 Definition dispatch_gen (P : Params) (op : string) (a : list arg) : list arg :=
@@ -49,6 +49,9 @@ Definition dispatch_gen (P : Params) (op : string) (a : list arg) : list arg :=
   else if (op =? "raw_fe10x26_negate")%string then map AInt (fe10x26_negate (I 0%nat) (I 1%nat) (I 2%nat) (I 3%nat) (I 4%nat) (I 5%nat) (I 6%nat) (I 7%nat) (I 8%nat) (I 9%nat) (I 10%nat))
   else if (op =? "raw_fe10x26_mul_int")%string then map AInt (fe10x26_mul_int (I 0%nat) (I 1%nat) (I 2%nat) (I 3%nat) (I 4%nat) (I 5%nat) (I 6%nat) (I 7%nat) (I 8%nat) (I 9%nat) (I 10%nat))
   else if (op =? "raw_fe10x26_half")%string then map AInt (fe10x26_half (I 0%nat) (I 1%nat) (I 2%nat) (I 3%nat) (I 4%nat) (I 5%nat) (I 6%nat) (I 7%nat) (I 8%nat) (I 9%nat))
+  else if (op =? "raw_ge_set_gej_zinv32")%string then map AInt (ge_set_gej_zinv32 (I 0%nat) (I 1%nat) (I 2%nat) (I 3%nat) (I 4%nat) (I 5%nat) (I 6%nat) (I 7%nat) (I 8%nat) (I 9%nat) (I 10%nat) (I 11%nat) (I 12%nat) (I 13%nat) (I 14%nat) (I 15%nat) (I 16%nat) (I 17%nat) (I 18%nat) (I 19%nat) (I 20%nat) (I 21%nat) (I 22%nat) (I 23%nat) (I 24%nat) (I 25%nat) (I 26%nat) (I 27%nat) (I 28%nat) (I 29%nat) (I 30%nat))
+  else if (op =? "raw_ge_set_ge_zinv32")%string then map AInt (ge_set_ge_zinv32 (I 0%nat) (I 1%nat) (I 2%nat) (I 3%nat) (I 4%nat) (I 5%nat) (I 6%nat) (I 7%nat) (I 8%nat) (I 9%nat) (I 10%nat) (I 11%nat) (I 12%nat) (I 13%nat) (I 14%nat) (I 15%nat) (I 16%nat) (I 17%nat) (I 18%nat) (I 19%nat) (I 20%nat) (I 21%nat) (I 22%nat) (I 23%nat) (I 24%nat) (I 25%nat) (I 26%nat) (I 27%nat) (I 28%nat) (I 29%nat) (I 30%nat))
+  else if (op =? "raw_gej_rescale32")%string then map AInt (gej_rescale32 (I 0%nat) (I 1%nat) (I 2%nat) (I 3%nat) (I 4%nat) (I 5%nat) (I 6%nat) (I 7%nat) (I 8%nat) (I 9%nat) (I 10%nat) (I 11%nat) (I 12%nat) (I 13%nat) (I 14%nat) (I 15%nat) (I 16%nat) (I 17%nat) (I 18%nat) (I 19%nat) (I 20%nat) (I 21%nat) (I 22%nat) (I 23%nat) (I 24%nat) (I 25%nat) (I 26%nat) (I 27%nat) (I 28%nat) (I 29%nat) (I 30%nat) (I 31%nat) (I 32%nat) (I 33%nat) (I 34%nat) (I 35%nat) (I 36%nat) (I 37%nat) (I 38%nat) (I 39%nat))
   else if (op =? "raw_gej_double32")%string then map AInt (gej_double32 (I 0%nat) (I 1%nat) (I 2%nat) (I 3%nat) (I 4%nat) (I 5%nat) (I 6%nat) (I 7%nat) (I 8%nat) (I 9%nat) (I 10%nat) (I 11%nat) (I 12%nat) (I 13%nat) (I 14%nat) (I 15%nat) (I 16%nat) (I 17%nat) (I 18%nat) (I 19%nat) (I 20%nat) (I 21%nat) (I 22%nat) (I 23%nat) (I 24%nat) (I 25%nat) (I 26%nat) (I 27%nat) (I 28%nat) (I 29%nat) (I 30%nat))
   else if (op =? "raw_gej_add_ge")%string then map AInt (gej_add_ge (I 0%nat) (I 1%nat) (I 2%nat) (I 3%nat) (I 4%nat) (I 5%nat) (I 6%nat) (I 7%nat) (I 8%nat) (I 9%nat) (I 10%nat) (I 11%nat) (I 12%nat) (I 13%nat) (I 14%nat) (I 15%nat) (I 16%nat) (I 17%nat) (I 18%nat) (I 19%nat) (I 20%nat) (I 21%nat) (I 22%nat) (I 23%nat) (I 24%nat) (I 25%nat))
   else if (op =? "raw_fe10x26_ntz")%string then [AInt (fe10x26_ntz (I 0%nat) (I 1%nat) (I 2%nat) (I 3%nat) (I 4%nat) (I 5%nat) (I 6%nat) (I 7%nat) (I 8%nat) (I 9%nat))]
